@@ -757,383 +757,6 @@ pub proof fn lemma_name8_only_injective(n: Seq<u8>, n2: Seq<u8>)
     lemma_name8_only_layout(n2);
 }
 
-// ---- Permissions: proof artefacts (the wire specification itself is in vx/prelude/wire_req2.rs) --------------------------------------
-// typed views of the local maps (a `HashMap::new()` local has no inferable type inside an invariant)
-pub open spec fn tmap(m: &HashMap<u32, TopicPermissions>) -> Map<u32, TopicPermissions> { m@ }
-pub open spec fn smap(m: &HashMap<u32, StreamPermissions>) -> Map<u32, StreamPermissions> { m@ }
-
-// the entries 0..i in the order they are appended (encoder side); equal to the specification's suffix form at i = |ord|
-pub open spec fn enc_topics_upto(m: Map<u32, TopicPermissions>, ord: Seq<u32>, i: int) -> Seq<u8>
-    decreases i
-{
-    if i <= 0 { Seq::<u8>::empty() }
-    else { enc_topics_upto(m, ord, i - 1) + enc_topic_entry(ord[i - 1], m[ord[i - 1]], i < ord.len()) }
-}
-pub proof fn lemma_topics_upto_from(m: Map<u32, TopicPermissions>, ord: Seq<u32>, i: int)
-    requires 0 <= i <= ord.len(),
-    ensures
-        enc_topics_upto(m, ord, i) + enc_topics_from(m, ord, i) == enc_topics_from(m, ord, 0),
-        i == ord.len() ==> enc_topics_upto(m, ord, i) == enc_topics_from(m, ord, 0),
-    decreases i
-{
-    if i == ord.len() { assert(enc_topics_upto(m, ord, i) + enc_topics_from(m, ord, i) =~= enc_topics_upto(m, ord, i)); }
-    if i == 0 {
-        assert(enc_topics_upto(m, ord, 0) + enc_topics_from(m, ord, 0) =~= enc_topics_from(m, ord, 0));
-    } else {
-        lemma_topics_upto_from(m, ord, i - 1);
-        let e = enc_topic_entry(ord[i - 1], m[ord[i - 1]], i < ord.len());
-        assert(enc_topics_from(m, ord, i - 1) == e + enc_topics_from(m, ord, i));
-        assert(enc_topics_upto(m, ord, i) + enc_topics_from(m, ord, i) =~= enc_topics_upto(m, ord, i - 1) + (e + enc_topics_from(m, ord, i)));
-    }
-}
-pub open spec fn enc_streams_upto(m: Map<u32, StreamV>, os: Seq<u32>, ot: Map<u32, Seq<u32>>, i: int) -> Seq<u8>
-    decreases i
-{
-    if i <= 0 { Seq::<u8>::empty() }
-    else { enc_streams_upto(m, os, ot, i - 1) + enc_stream_entry(os[i - 1], m[os[i - 1]], ot[os[i - 1]], i < os.len()) }
-}
-pub proof fn lemma_streams_upto_from(m: Map<u32, StreamV>, os: Seq<u32>, ot: Map<u32, Seq<u32>>, i: int)
-    requires 0 <= i <= os.len(),
-    ensures
-        enc_streams_upto(m, os, ot, i) + enc_streams_from(m, os, ot, i) == enc_streams_from(m, os, ot, 0),
-        i == os.len() ==> enc_streams_upto(m, os, ot, i) == enc_streams_from(m, os, ot, 0),
-    decreases i
-{
-    if i == os.len() { assert(enc_streams_upto(m, os, ot, i) + enc_streams_from(m, os, ot, i) =~= enc_streams_upto(m, os, ot, i)); }
-    if i == 0 {
-        assert(enc_streams_upto(m, os, ot, 0) + enc_streams_from(m, os, ot, 0) =~= enc_streams_from(m, os, ot, 0));
-    } else {
-        lemma_streams_upto_from(m, os, ot, i - 1);
-        let e = enc_stream_entry(os[i - 1], m[os[i - 1]], ot[os[i - 1]], i < os.len());
-        assert(enc_streams_from(m, os, ot, i - 1) == e + enc_streams_from(m, os, ot, i));
-        assert(enc_streams_upto(m, os, ot, i) + enc_streams_from(m, os, ot, i) =~= enc_streams_upto(m, os, ot, i - 1) + (e + enc_streams_from(m, os, ot, i)));
-    }
-}
-// a duplicate-free key sequence that covers a map has as many elements as the map
-pub proof fn lemma_keys_exactly_len<K, V>(m: Map<K, V>, ks: Seq<K>)
-    requires keys_exactly(m, ks),
-    ensures ks.len() == m.len(),
-{
-    ks.unique_seq_to_set();
-    assert(ks.to_set() =~= m.dom());
-}
-
-pub proof fn lemma_perm_rel_intro(p: Permissions, bytes: Seq<u8>)
-    requires orders_ok(perm_view(p), perm_order_s(p), perm_order_t(p)), bytes == enc_permissions(p),
-    ensures enc_permissions_rel(p, bytes),
-{}
-
-// what the encoder BUILDS (appends, in the order of the statements) is what the layout SAYS: pure sequence algebra. The loop
-// invariants speak about the prefixes below as OPAQUE terms (hidden in the function body) and every loop step is one lemma here, so
-// that the function body needs no reasoning about concatenations at all.
-pub open spec fn sprefix(g0: Seq<u8>, m: Map<u32, StreamV>, os: Seq<u32>, ot: Map<u32, Seq<u32>>, i: int) -> Seq<u8> { g0 + enc_streams_upto(m, os, ot, i) }
-pub open spec fn tprefix(pre: Seq<u8>, m: Map<u32, TopicPermissions>, ord: Seq<u32>, j: int) -> Seq<u8> { pre + enc_topics_upto(m, ord, j) }
-pub proof fn lemma_global_built(g: GlobalPermissions)
-    ensures
-        Seq::<u8>::empty().push(flag(g.manage_servers)).push(flag(g.read_servers)).push(flag(g.manage_users)).push(flag(g.read_users))
-            .push(flag(g.manage_streams)).push(flag(g.read_streams)).push(flag(g.manage_topics)).push(flag(g.read_topics))
-            .push(flag(g.poll_messages)).push(flag(g.send_messages)) == enc_global(g),
-{}
-pub proof fn lemma_prefix_zero(g0: Seq<u8>, m: Map<u32, StreamV>, os: Seq<u32>, ot: Map<u32, Seq<u32>>, pre: Seq<u8>, tm: Map<u32, TopicPermissions>, ord: Seq<u32>)
-    ensures sprefix(g0, m, os, ot, 0) == g0, tprefix(pre, tm, ord, 0) == pre,
-{
-    assert(sprefix(g0, m, os, ot, 0) =~= g0);
-    assert(tprefix(pre, tm, ord, 0) =~= pre);
-}
-pub proof fn lemma_tprefix_step(pre: Seq<u8>, m: Map<u32, TopicPermissions>, ord: Seq<u32>, j: int)
-    requires 0 <= j < ord.len(),
-    ensures
-        ({
-            let t = m[ord[j]];
-            (tprefix(pre, m, ord, j) + le32(ord[j])).push(flag(t.manage_topic)).push(flag(t.read_topic)).push(flag(t.poll_messages)).push(flag(t.send_messages))
-                .push(flag(j + 1 < ord.len())) == tprefix(pre, m, ord, j + 1)
-        }),
-{
-    let t = m[ord[j]];
-    assert((tprefix(pre, m, ord, j) + le32(ord[j])).push(flag(t.manage_topic)).push(flag(t.read_topic)).push(flag(t.poll_messages)).push(flag(t.send_messages))
-                .push(flag(j + 1 < ord.len())) =~= pre + (enc_topics_upto(m, ord, j) + enc_topic_entry(ord[j], t, j + 1 < ord.len())));
-}
-pub proof fn lemma_sprefix_step_topics(g0: Seq<u8>, m: Map<u32, StreamV>, os: Seq<u32>, ot: Map<u32, Seq<u32>>, i: int)
-    requires 0 <= i < os.len(), ot[os[i]].len() > 0,
-    ensures
-        ({
-            let sv = m[os[i]];
-            let ord = ot[os[i]];
-            let pre_t = (sprefix(g0, m, os, ot, i) + le32(os[i])).push(flag(sv.manage_stream)).push(flag(sv.read_stream)).push(flag(sv.manage_topics))
-                .push(flag(sv.read_topics)).push(flag(sv.poll_messages)).push(flag(sv.send_messages)).push(1u8);
-            tprefix(pre_t, sv.topics, ord, ord.len() as int).push(flag(i + 1 < os.len())) == sprefix(g0, m, os, ot, i + 1)
-        }),
-{
-    let sv = m[os[i]];
-    let ord = ot[os[i]];
-    let pre_t = (sprefix(g0, m, os, ot, i) + le32(os[i])).push(flag(sv.manage_stream)).push(flag(sv.read_stream)).push(flag(sv.manage_topics))
-                .push(flag(sv.read_topics)).push(flag(sv.poll_messages)).push(flag(sv.send_messages)).push(1u8);
-    lemma_topics_upto_from(sv.topics, ord, ord.len() as int);
-    let tf = enc_topics_from(sv.topics, ord, 0);
-    assert(tprefix(pre_t, sv.topics, ord, ord.len() as int).push(flag(i + 1 < os.len()))
-        =~= g0 + (enc_streams_upto(m, os, ot, i) + (enc_stream_head(os[i], sv) + (seq![1u8] + tf)).push(flag(i + 1 < os.len()))));
-}
-pub proof fn lemma_sprefix_step_none(g0: Seq<u8>, m: Map<u32, StreamV>, os: Seq<u32>, ot: Map<u32, Seq<u32>>, i: int)
-    requires 0 <= i < os.len(), ot[os[i]].len() == 0,
-    ensures
-        ({
-            let sv = m[os[i]];
-            (sprefix(g0, m, os, ot, i) + le32(os[i])).push(flag(sv.manage_stream)).push(flag(sv.read_stream)).push(flag(sv.manage_topics))
-                .push(flag(sv.read_topics)).push(flag(sv.poll_messages)).push(flag(sv.send_messages)).push(0u8).push(flag(i + 1 < os.len()))
-                == sprefix(g0, m, os, ot, i + 1)
-        }),
-{
-    let sv = m[os[i]];
-    assert((sprefix(g0, m, os, ot, i) + le32(os[i])).push(flag(sv.manage_stream)).push(flag(sv.read_stream)).push(flag(sv.manage_topics))
-                .push(flag(sv.read_topics)).push(flag(sv.poll_messages)).push(flag(sv.send_messages)).push(0u8).push(flag(i + 1 < os.len()))
-        =~= g0 + (enc_streams_upto(m, os, ot, i) + (enc_stream_head(os[i], sv) + seq![0u8]).push(flag(i + 1 < os.len()))));
-}
-// the finished buffer is the encoding
-pub proof fn lemma_sprefix_final(g: Seq<u8>, m: Map<u32, StreamV>, os: Seq<u32>, ot: Map<u32, Seq<u32>>)
-    ensures
-        os.len() > 0 ==> sprefix(g.push(1u8), m, os, ot, os.len() as int) == g + enc_streams(m, os, ot),
-        os.len() == 0 ==> g.push(0u8) == g + enc_streams(m, os, ot),
-{
-    if os.len() > 0 {
-        lemma_streams_upto_from(m, os, ot, os.len() as int);
-        assert(sprefix(g.push(1u8), m, os, ot, os.len() as int) =~= g + (seq![1u8] + enc_streams_from(m, os, ot, 0)));
-    } else {
-        assert(g.push(0u8) =~= g + seq![0u8]);
-    }
-}
-pub proof fn lemma_perm_built(g: Seq<u8>, f: Seq<u8>)
-    ensures g.push(1u8) + f == g + (seq![1u8] + f), g.push(0u8) == g + seq![0u8], g + Seq::<u8>::empty() == g,
-{
-    assert(g.push(1u8) + f =~= g + (seq![1u8] + f));
-    assert(g.push(0u8) =~= g + seq![0u8]);
-    assert(g + Seq::<u8>::empty() =~= g);
-}
-
-// ---- Permissions, decoder side: where the fields of the next entry sit in a buffer that starts with a suffix of the encoding ------------
-pub proof fn lemma_global_layout(g: GlobalPermissions)
-    ensures
-        ({
-            let e = enc_global(g);
-            &&& e.len() == 10
-            &&& e[0] == flag(g.manage_servers) && e[1] == flag(g.read_servers) && e[2] == flag(g.manage_users) && e[3] == flag(g.read_users)
-            &&& e[4] == flag(g.manage_streams) && e[5] == flag(g.read_streams) && e[6] == flag(g.manage_topics) && e[7] == flag(g.read_topics)
-            &&& e[8] == flag(g.poll_messages) && e[9] == flag(g.send_messages)
-        }),
-{}
-pub proof fn lemma_global_injective(g1: GlobalPermissions, g0: GlobalPermissions)
-    requires enc_global(g1) == enc_global(g0),
-    ensures g1 == g0,
-{
-    hide(enc_global);
-    lemma_global_layout(g1);
-    lemma_global_layout(g0);
-    let e = enc_global(g1);
-    assert(g1.manage_servers == g0.manage_servers) by { assert(e[0] == e[0]); }
-    assert(g1.read_servers == g0.read_servers && g1.manage_users == g0.manage_users && g1.read_users == g0.read_users);
-    assert(g1.manage_streams == g0.manage_streams && g1.read_streams == g0.read_streams && g1.manage_topics == g0.manage_topics);
-    assert(g1.read_topics == g0.read_topics && g1.poll_messages == g0.poll_messages && g1.send_messages == g0.send_messages);
-}
-pub proof fn lemma_permv_layout(v: PermV, os: Seq<u32>, ot: Map<u32, Seq<u32>>)
-    ensures
-        ({
-            let b = enc_permv(v, os, ot);
-            let g = v.global;
-            &&& b.len() >= 11
-            &&& b.subrange(0, 10) == enc_global(g)
-            &&& b[0] == flag(g.manage_servers) && b[1] == flag(g.read_servers) && b[2] == flag(g.manage_users) && b[3] == flag(g.read_users)
-            &&& b[4] == flag(g.manage_streams) && b[5] == flag(g.read_streams) && b[6] == flag(g.manage_topics) && b[7] == flag(g.read_topics)
-            &&& b[8] == flag(g.poll_messages) && b[9] == flag(g.send_messages)
-            &&& (os.len() == 0 ==> b[10] == 0 && b.len() == 11)
-            &&& (os.len() > 0 ==> b[10] == 1 && b.subrange(11, b.len() as int) == enc_streams_from(v.streams, os, ot, 0))
-        }),
-{
-    hide(enc_global);
-    let e = enc_global(v.global);
-    let s = enc_streams(v.streams, os, ot);
-    let b = enc_permv(v, os, ot);
-    lemma_global_layout(v.global);
-    lemma_cat_index(e, s);
-    assert(b == e + s);
-    assert(b[0] == e[0] && b[1] == e[1] && b[2] == e[2] && b[3] == e[3] && b[4] == e[4]);
-    assert(b[5] == e[5] && b[6] == e[6] && b[7] == e[7] && b[8] == e[8] && b[9] == e[9]);
-    assert(b[10] == s[0]);
-    if os.len() > 0 { assert(b.subrange(11, b.len() as int) =~= enc_streams_from(v.streams, os, ot, 0)); }
-}
-// s = (stream entries from i) + rest
-pub proof fn lemma_streams_from_layout(m: Map<u32, StreamV>, os: Seq<u32>, ot: Map<u32, Seq<u32>>, i: int, rest: Seq<u8>)
-    requires 0 <= i < os.len(),
-    ensures
-        ({
-            let s = enc_streams_from(m, os, ot, i) + rest;
-            let sv = m[os[i]];
-            &&& s.len() >= 10
-            &&& s.subrange(0, 4) == le32(os[i])
-            &&& s[4] == flag(sv.manage_stream) && s[5] == flag(sv.read_stream) && s[6] == flag(sv.manage_topics) && s[7] == flag(sv.read_topics)
-            &&& s[8] == flag(sv.poll_messages) && s[9] == flag(sv.send_messages)
-            &&& s.subrange(10, s.len() as int) == enc_topics(sv.topics, ot[os[i]]) + (seq![flag(i + 1 < os.len())] + (enc_streams_from(m, os, ot, i + 1) + rest))
-            &&& (i + 1 == os.len() ==> enc_streams_from(m, os, ot, i + 1) + rest == rest)
-        }),
-{
-    lemma_le_facts();
-    if i + 1 == os.len() { assert(enc_streams_from(m, os, ot, i + 1) + rest =~= rest); }
-    let s = enc_streams_from(m, os, ot, i) + rest;
-    let sv = m[os[i]];
-    assert(s.subrange(0, 4) =~= le32(os[i]));
-    assert(s.subrange(10, s.len() as int) =~= enc_topics(sv.topics, ot[os[i]]) + (seq![flag(i + 1 < os.len())] + (enc_streams_from(m, os, ot, i + 1) + rest)));
-}
-// t = (topics part of a stream entry) + rest
-pub proof fn lemma_topics_layout(m: Map<u32, TopicPermissions>, ord: Seq<u32>, rest: Seq<u8>)
-    ensures
-        ({
-            let t = enc_topics(m, ord) + rest;
-            &&& t.len() >= 1
-            &&& (ord.len() == 0 ==> t[0] == 0 && t.subrange(1, t.len() as int) == rest)
-            &&& (ord.len() > 0 ==> t[0] == 1 && t.subrange(1, t.len() as int) == enc_topics_from(m, ord, 0) + rest)
-        }),
-{
-    let t = enc_topics(m, ord) + rest;
-    if ord.len() == 0 { assert(t.subrange(1, t.len() as int) =~= rest); }
-    else { assert(t.subrange(1, t.len() as int) =~= enc_topics_from(m, ord, 0) + rest); }
-}
-// s = (topic entries from j) + rest
-pub proof fn lemma_topics_from_layout(m: Map<u32, TopicPermissions>, ord: Seq<u32>, j: int, rest: Seq<u8>)
-    requires 0 <= j < ord.len(),
-    ensures
-        ({
-            let s = enc_topics_from(m, ord, j) + rest;
-            let t = m[ord[j]];
-            &&& s.len() >= 9
-            &&& s.subrange(0, 4) == le32(ord[j])
-            &&& s[4] == flag(t.manage_topic) && s[5] == flag(t.read_topic) && s[6] == flag(t.poll_messages) && s[7] == flag(t.send_messages)
-            &&& s[8] == flag(j + 1 < ord.len())
-            &&& s.subrange(9, s.len() as int) == enc_topics_from(m, ord, j + 1) + rest
-            &&& (j + 1 == ord.len() ==> enc_topics_from(m, ord, j + 1) + rest == rest)
-        }),
-{
-    lemma_le_facts();
-    if j + 1 == ord.len() { assert(enc_topics_from(m, ord, j + 1) + rest =~= rest); }
-    let s = enc_topics_from(m, ord, j) + rest;
-    assert(s.subrange(0, 4) =~= le32(ord[j]));
-    assert(s.subrange(9, s.len() as int) =~= enc_topics_from(m, ord, j + 1) + rest);
-}
-
-// ---- Permissions: the encoding determines the value (whatever entry orders were used) ---------------------------------------------------
-pub proof fn lemma_topics_from_inj(m1: Map<u32, TopicPermissions>, o1: Seq<u32>, m0: Map<u32, TopicPermissions>, o0: Seq<u32>, j: int, r1: Seq<u8>, r0: Seq<u8>)
-    requires 0 <= j < o1.len(), j < o0.len(), enc_topics_from(m1, o1, j) + r1 == enc_topics_from(m0, o0, j) + r0,
-    ensures o1.len() == o0.len(), r1 == r0, forall|k: int| j <= k < o1.len() ==> o1[k] == o0[k] && m1[#[trigger] o1[k]] == m0[o0[k]],
-    decreases o1.len() - j
-{
-    lemma_le_facts();
-    lemma_topics_from_layout(m1, o1, j, r1);
-    lemma_topics_from_layout(m0, o0, j, r0);
-    assert(un_le32(le32(o1[j])) == un_le32(le32(o0[j])));
-    let a = m1[o1[j]];
-    let b = m0[o0[j]];
-    assert(a.manage_topic == b.manage_topic && a.read_topic == b.read_topic && a.poll_messages == b.poll_messages && a.send_messages == b.send_messages);
-    assert(a == b);
-    if j + 1 < o1.len() {
-        assert(j + 1 < o0.len());
-        lemma_topics_from_inj(m1, o1, m0, o0, j + 1, r1, r0);
-    } else {
-        assert(j + 1 == o0.len());
-    }
-}
-pub open spec fn topics_same(m1: Map<u32, TopicPermissions>, o1: Seq<u32>, m0: Map<u32, TopicPermissions>, o0: Seq<u32>) -> bool {
-    o1.len() == o0.len() && forall|k: int| 0 <= k < o1.len() ==> o1[k] == o0[k] && m1[#[trigger] o1[k]] == m0[o0[k]]
-}
-pub proof fn lemma_topics_inj(m1: Map<u32, TopicPermissions>, o1: Seq<u32>, m0: Map<u32, TopicPermissions>, o0: Seq<u32>, r1: Seq<u8>, r0: Seq<u8>)
-    requires enc_topics(m1, o1) + r1 == enc_topics(m0, o0) + r0,
-    ensures topics_same(m1, o1, m0, o0), r1 == r0,
-{
-    lemma_topics_layout(m1, o1, r1);
-    lemma_topics_layout(m0, o0, r0);
-    if o1.len() > 0 {
-        lemma_topics_from_inj(m1, o1, m0, o0, 0, r1, r0);
-    }
-}
-pub open spec fn stream_same(s1: StreamV, o1: Seq<u32>, s0: StreamV, o0: Seq<u32>) -> bool {
-    &&& s1.manage_stream == s0.manage_stream && s1.read_stream == s0.read_stream && s1.manage_topics == s0.manage_topics
-    &&& s1.read_topics == s0.read_topics && s1.poll_messages == s0.poll_messages && s1.send_messages == s0.send_messages
-    &&& topics_same(s1.topics, o1, s0.topics, o0)
-}
-pub proof fn lemma_streams_from_inj(m1: Map<u32, StreamV>, os1: Seq<u32>, ot1: Map<u32, Seq<u32>>, m0: Map<u32, StreamV>, os0: Seq<u32>, ot0: Map<u32, Seq<u32>>,
-                                    i: int, r1: Seq<u8>, r0: Seq<u8>)
-    requires 0 <= i < os1.len(), i < os0.len(), enc_streams_from(m1, os1, ot1, i) + r1 == enc_streams_from(m0, os0, ot0, i) + r0,
-    ensures
-        os1.len() == os0.len(), r1 == r0,
-        forall|k: int| i <= k < os1.len() ==> os1[k] == os0[k] && stream_same(m1[#[trigger] os1[k]], ot1[os1[k]], m0[os0[k]], ot0[os0[k]]),
-    decreases os1.len() - i
-{
-    lemma_le_facts();
-    lemma_streams_from_layout(m1, os1, ot1, i, r1);
-    lemma_streams_from_layout(m0, os0, ot0, i, r0);
-    assert(un_le32(le32(os1[i])) == un_le32(le32(os0[i])));
-    let s1 = m1[os1[i]];
-    let s0 = m0[os0[i]];
-    let x1 = seq![flag(i + 1 < os1.len())] + (enc_streams_from(m1, os1, ot1, i + 1) + r1);
-    let x0 = seq![flag(i + 1 < os0.len())] + (enc_streams_from(m0, os0, ot0, i + 1) + r0);
-    lemma_topics_inj(s1.topics, ot1[os1[i]], s0.topics, ot0[os0[i]], x1, x0);
-    assert(x1[0] == x0[0]);
-    assert(x1.subrange(1, x1.len() as int) =~= enc_streams_from(m1, os1, ot1, i + 1) + r1);
-    assert(x0.subrange(1, x0.len() as int) =~= enc_streams_from(m0, os0, ot0, i + 1) + r0);
-    assert(stream_same(s1, ot1[os1[i]], s0, ot0[os0[i]]));
-    if i + 1 < os1.len() {
-        assert(i + 1 < os0.len());
-        lemma_streams_from_inj(m1, os1, ot1, m0, os0, ot0, i + 1, r1, r0);
-    } else {
-        assert(i + 1 == os0.len());
-    }
-}
-// two stream views that were encoded alike are equal (their topic orders list exactly the keys of the topic maps)
-pub proof fn lemma_stream_same_eq(s1: StreamV, o1: Seq<u32>, s0: StreamV, o0: Seq<u32>)
-    requires stream_same(s1, o1, s0, o0), keys_exactly(s1.topics, o1), keys_exactly(s0.topics, o0),
-    ensures s1 == s0,
-{
-    assert forall|k: u32| s1.topics.contains_key(k) implies s0.topics.contains_key(k) && s0.topics[k] == s1.topics[k] by {
-        let j = choose|j: int| 0 <= j < o1.len() && o1[j] == k;
-        assert(s0.topics.contains_key(o0[j]) && s1.topics[o1[j]] == s0.topics[o0[j]]);
-    }
-    assert forall|k: u32| s0.topics.contains_key(k) implies s1.topics.contains_key(k) by {
-        let j = choose|j: int| 0 <= j < o0.len() && o0[j] == k;
-        assert(s1.topics.contains_key(o1[j]));
-    }
-    assert(s1.topics =~= s0.topics);
-}
-// (labelled wrapper: lemmas.rs c13_inj_permissions)
-pub proof fn lemma_permv_injective(v1: PermV, os1: Seq<u32>, ot1: Map<u32, Seq<u32>>, v0: PermV, os0: Seq<u32>, ot0: Map<u32, Seq<u32>>)
-    requires orders_ok(v1, os1, ot1), orders_ok(v0, os0, ot0), enc_permv(v1, os1, ot1) == enc_permv(v0, os0, ot0),
-    ensures v1 =~~= v0,
-{
-    hide(enc_global);
-    lemma_permv_layout(v1, os1, ot1);
-    lemma_permv_layout(v0, os0, ot0);
-    lemma_global_injective(v1.global, v0.global);
-    if os1.len() == 0 {
-        assert(os0.len() == 0);
-        assert forall|k: u32| !v1.streams.contains_key(k) && !v0.streams.contains_key(k) by {
-            if v1.streams.contains_key(k) { let j = choose|j: int| 0 <= j < os1.len() && os1[j] == k; }
-            if v0.streams.contains_key(k) { let j = choose|j: int| 0 <= j < os0.len() && os0[j] == k; }
-        }
-        assert(v1.streams =~= v0.streams);
-    } else {
-        assert(os0.len() > 0);
-        lemma_perm_built(enc_streams_from(v1.streams, os1, ot1, 0), Seq::<u8>::empty());
-        lemma_perm_built(enc_streams_from(v0.streams, os0, ot0, 0), Seq::<u8>::empty());
-        lemma_streams_from_inj(v1.streams, os1, ot1, v0.streams, os0, ot0, 0, Seq::<u8>::empty(), Seq::<u8>::empty());
-        assert forall|k: u32| v1.streams.contains_key(k) implies v0.streams.contains_key(k) && v0.streams[k] == v1.streams[k] by {
-            let j = choose|j: int| 0 <= j < os1.len() && os1[j] == k;
-            assert(v0.streams.contains_key(os0[j]));
-            assert(stream_same(v1.streams[os1[j]], ot1[os1[j]], v0.streams[os0[j]], ot0[os0[j]]));
-            lemma_stream_same_eq(v1.streams[k], ot1[k], v0.streams[k], ot0[k]);
-        }
-        assert forall|k: u32| v0.streams.contains_key(k) implies v1.streams.contains_key(k) by {
-            let j = choose|j: int| 0 <= j < os0.len() && os0[j] == k;
-            assert(v1.streams.contains_key(os1[j]));
-        }
-        assert(v1.streams =~= v0.streams);
-    }
-}
-
 // ---- optional Permissions inside a request:  has_permissions:u8 [| length:u32 | Permissions bytes] --------------------------------------
 // `pb` are the permission bytes the frame carries; they are tied to a Permissions value by `enc_permissions_rel` (any entry order)
 pub open spec fn opt_pb(pb: Option<Seq<u8>>) -> Seq<u8> { match pb { None => seq![0u8], Some(b) => seq![1u8] + le32(b.len() as u32) + b } }
